@@ -147,6 +147,14 @@ func (p c08) both(c *fw.Ctx, src string) {
 }
 
 func (p c08) RunBatch(c *fw.Ctx) {
+	// syntax nested deeper than anything may recurse on: chains of else-if, like parentheses, must be refused or printable
+	if c.Batch == 1%c.NBatches {
+		for _, n := range []int{9000, 11000, c.Pick(3000000, 3000000)} {
+			p.both(c, "if a {} "+strings.Repeat("else if a {} ", n))
+			p.both(c, "x = "+strings.Repeat("if a {1} else {", n)+"2"+strings.Repeat("}", n))
+			c.Count("deep_else_if_chains", 2)
+		}
+	}
 	InitGrol(nil)
 	maxLen := c.Pick(3, 4)
 	A := c08Alphabet
